@@ -9,12 +9,12 @@ mkdir -p "$V/.build" "$V/engine/bin"
 exec 9>"$V/.build/lock"
 flock 9
 JDIR="$(cd "$REPO" && go list -m -f '{{.Dir}}' github.com/mit-pdos/go-journal)"
-STAMP="$( (cd "$REPO" && find . -path ./.git -prune -o \( -name '*.go' -o -name go.mod -o -name go.sum \) -type f -print0 | sort -z | xargs -0 sha256sum; cd "$V" && find vgen engine/vrtsrc -type f -print0 | sort -z | xargs -0 sha256sum; echo "$JDIR") | sha256sum | cut -d' ' -f1)"
+STAMP="$( (cd "$REPO" && find . -path ./.git -prune -o \( -name '*.go' -o -name go.mod -o -name go.sum \) -type f -print0 | sort -z | xargs -0 sha256sum; cd "$V" && find vgen engine/vrtsrc jextra -type f -print0 | sort -z | xargs -0 sha256sum; echo "$JDIR") | sha256sum | cut -d' ' -f1)"
 if [ ! -f "$V/.build/gen/STAMP" ] || [ "$(cat "$V/.build/gen/STAMP")" != "$STAMP" ]; then
   if [ ! -x "$V/.build/vgen" ] || [ -n "$(find "$V/vgen" -newer "$V/.build/vgen" -type f)" ]; then
     (cd "$V/vgen" && go build -o "$V/.build/vgen" .)
   fi
-  "$V/.build/vgen" -repo "$REPO" -journal "$JDIR" -vrt "$V/engine/vrtsrc" -out "$V/.build/gen" >&2
+  "$V/.build/vgen" -repo "$REPO" -journal "$JDIR" -vrt "$V/engine/vrtsrc" -jextra "$V/jextra" -out "$V/.build/gen" >&2
   cat "$REPO/go.sum" "$JDIR/go.sum" | sort -u > "$V/engine/go.sum.new"
   if ! cmp -s "$V/engine/go.sum.new" "$V/engine/go.sum"; then mv "$V/engine/go.sum.new" "$V/engine/go.sum"; else rm "$V/engine/go.sum.new"; fi
   echo "$STAMP" > "$V/.build/gen/STAMP"
